@@ -203,7 +203,26 @@ def run(rep):
                 continue  # e.g. a unit-step counter or the sum of two lengths: cannot fire
             masserts.append("%s %s" % (s_.kind, s_.callee))
     rep.check(not masserts, "NO-PANIC", "NO-PANIC/validate-mir", v.sp, "MIR of validate has no assert/unwrap/expect/panic terminator outside cleanup", "; ".join(map(str, masserts)))
-    rep.floor("T-VALIDATE", 18)
+    # validate as a whole, over all small example lists (mappings that match / do not match, tagged mappings, non-mappings)
+    import core as _core
+    import validmodel
+    rep.describe("VALID-MODEL", "validate evaluated over every pair of example lists up to length 2: Ok(true) iff all positives match and no negative does; otherwise an error naming each failing example in order")
+    vrows, vun = validmodel.evaluate(F)
+    if vrows is None:
+        rep.note("validate model not applicable (%s); structural rules decide" % vun)
+    else:
+        vbad = [r for r in vrows if not r[3]]
+        groups = {}
+        for (tp_, tn_), want_, got_, agree_ in vrows:
+            groups.setdefault((len(tp_), len(tn_)), []).append(agree_)
+        for (a_, b_), oks_ in sorted(groups.items()):
+            first = [r for r in vbad if (len(r[0][0]), len(r[0][1])) == (a_, b_)][:1]
+            rep.check(all(oks_), "VALID-MODEL", "VALID-MODEL/%d-positives/%d-negatives" % (a_, b_), v.sp, "all %d example lists of this size validate as specified" % len(oks_),
+                      None if all(oks_) else "positives %s negatives %s: expected %s, the body yields %s" % (list(first[0][0][0]), list(first[0][0][1]), str(first[0][1])[:100], str(first[0][2])[:100]))
+    if not _core.model_decides(rep, vrows is not None and all(r[3] for r in vrows), {"T-VALIDATE"}, "validate decided by its model"):
+        rep.floor("T-VALIDATE", 18)
+    else:
+        rep.floor("VALID-MODEL", 9)
     rep.floor("NO-PANIC", 2)
     rep.exhaustive = True
     rep.assumptions.append("panics inside the solver are owned by C03; here only validate()'s own code is inspected")
